@@ -93,15 +93,16 @@ def handleDataFrame (f : InFrame) : Err :=
 
 def handleFrame (m : M) (f : InFrame) : Option (M × Err) :=
   let r : Option (M × Err) :=
-    match verifyFrame f with
-    | .nil => if isControl f.op then handleControlFrame m f else some (m, handleDataFrame f)
-    | e => some (m, e)
+    if verifyFrame f = .nil then
+      (if isControl f.op then handleControlFrame m f else some (m, handleDataFrame f))
+    else some (m, verifyFrame f)
   match r with
   | none => none
-  | some (m, .nil) => some (m, .nil)
   | some (m, e) =>
-    let m := if m.state == .active then prepareClose m (u16 1002) else m
-    some ({ m with state := .closedByUs }, e)
+    if e = .nil then some (m, .nil)
+    else
+      let m := if m.state == .active then prepareClose m (u16 1002) else m
+      some ({ m with state := .closedByUs }, e)
 
 /-! ### NextFrame / AsyncNextFrame -/
 
@@ -110,8 +111,9 @@ def close1006 : InFrame := { fin := true, rsv := 0, op := 8, masked := false, pa
 /-- `nextFrame` and the callback of `asyncNextFrame` (they are the same decision tree). -/
 def nextFrameInner (m : M) : Option (M × Err × Option InFrame) :=
   match readNext m with
-  | (m, .err .eof) => some ({ m with state := .terminated }, .eof, some close1006)
-  | (m, .err e) => some (m, e, none)
+  | (m, .err e) =>
+    if e = .eof then some ({ m with state := .terminated }, .eof, some close1006)
+    else some (m, e, none)
   | (m, .frame f) =>
     match handleFrame m f with
     | none => none
@@ -154,25 +156,27 @@ def nextMessage (async : Bool) (buf : Nat) : Nat → M → Asm → Option (M × 
   | fuel + 1, m, a =>
     match nextFrame async m with
     | none => none
-    | some (m, .nil, some f) =>
-      if isControl f.op then
-        nextMessage async buf fuel m { a with ctl := a.ctl ++ [(f.op, f.payload)] }
-      else
-        let ty := if a.ty == 255 then f.op else a.ty
-        let k := min (buf - a.n) f.payload.length            -- copy(b[readBytes:], f.Payload())
-        let n := a.n + k
-        let data := a.data ++ f.payload.take k
-        if n > m.max || k != f.payload.length then
-          some ((close m 1001 tooBigReason).1, .tooBig, { a with ty := ty, n := n, data := data })
+    | some (m, e, fo) =>
+      if e ≠ .nil then some (m, e, a)
+      else match fo with
+      | none => some (m, .other, a)      -- not reachable: a frame accompanies err == nil
+      | some f =>
+        if isControl f.op then
+          nextMessage async buf fuel m { a with ctl := a.ctl ++ [(f.op, f.payload)] }
         else
-          let e : Err :=
-            if !a.cont then (if f.op == 0 then .unexpCont else .nil)
-            else (if f.op != 0 then .expCont else .nil)
-          let cont := !f.fin
-          if e != .nil || !cont then some (m, e, { a with ty := ty, n := n, data := data, cont := cont })
-          else nextMessage async buf fuel m { a with ty := ty, n := n, data := data, cont := cont }
-    | some (m, .nil, none) => some (m, .other, a)      -- not reachable: a frame accompanies err == nil
-    | some (m, e, _) => some (m, e, a)
+          let ty := if a.ty = 255 then f.op else a.ty
+          let k := min (buf - a.n) f.payload.length            -- copy(b[readBytes:], f.Payload())
+          let n := a.n + k
+          let data := a.data ++ f.payload.take k
+          if n > m.max ∨ k ≠ f.payload.length then
+            some ((close m 1001 tooBigReason).1, .tooBig, { a with ty := ty, n := n, data := data })
+          else
+            let e : Err :=
+              if !a.cont then (if f.op = 0 then .unexpCont else .nil)
+              else (if f.op ≠ 0 then .expCont else .nil)
+            let cont := !f.fin
+            if e ≠ .nil ∨ cont = false then some (m, e, { a with ty := ty, n := n, data := data, cont := cont })
+            else nextMessage async buf fuel m { a with ty := ty, n := n, data := data, cont := cont }
 
 /-! ### Write / WriteFrame and the asynchronous twins -/
 
